@@ -114,7 +114,12 @@ def run(ctx):
         if sts:
             (b, bi, t) = sts[-1]
             s = XSlice(F, b).operand(t["args"][1])
-            pe[ty] = (s.has_call(r"cmp::Ord::max$|cmp::max$") and s.has_field("Entry", "index"), s.has_call(r"atomic::Atomic\w*::load$") or strip_generics(callee_key(t)).endswith("fetch_max"), b, bi)
+            # max over the batch: a running `max()` accumulator or `entries.iter().map(|e| e.index).max()`
+            idx = s.has_field("Entry", "index")
+            for x in s.sources:
+                if x[0] == "closure" and x[1] in F.bodies:
+                    idx = idx or Slice(F, F.bodies[x[1]]).operand({"p": {"l": 0}}).has_field("Entry", "index")
+            pe[ty] = (s.has_call(r"cmp::Ord::max$|cmp::max$|Iterator::max$") and idx, s.has_call(r"atomic::Atomic\w*::load$") or strip_generics(callee_key(t)).endswith("fetch_max"), b, bi)
     ctx.floor("C20-b", len(pe), 2, "LogStore::persist_entries impls with a cached last_index update")
     for ty, (is_batch_max, reads_old, b, bi) in sorted(pe.items()):
         same = len(set((v[0], v[1]) for v in pe.values())) == 1
